@@ -15,7 +15,7 @@ OutOK(eo, r) == CASE eo \in {"?", "L:"} -> TRUE
                   [] eo = "=x" -> r.has_out /\ r.out = "x"
                   [] eo = "=xx" -> r.has_out /\ r.out = "xx"
                   [] eo = "=xxx" -> r.has_out /\ r.out = "xxx"
-                  [] OTHER -> IF Len(eo) > 0 /\ eo \in {"=a.txt", "=b.txt", "=n.txt", "=d", "=s p", "=c é.txt", "=d/s p"} THEN r.has_out /\ ("=" \o r.out) = eo
+                  [] OTHER -> IF eo \in {"=" \o Base[p] : p \in Paths} \cup {"=" \o Parent[p] : p \in Paths} THEN r.has_out /\ ("=" \o r.out) = eo
                               ELSE r.has_out /\ r.out = eo
 ListOK(op, t, r) == op.cmd # "ls" \/ LET want == IF Kind(t, op.a[1]) = "dir" THEN {Base[q] : q \in Children(t, op.a[1])} ELSE {} IN
                         {r.listing[i] : i \in 1..Len(r.listing)} = want /\ Len(r.listing) = Cardinality(want)
